@@ -87,6 +87,8 @@ class Symbols:
         for mod in repo.modules.values():
             for q, node in mod.classes.items():
                 self.classes[(mod.name, q)] = ClassInfo(mod, node)
+        from . import fdeval as _fdeval
+        _fdeval.CURRENT_SYM[0] = self
         for ci in self.classes.values():
             for b in ci.node.bases:
                 r = self.resolve_expr(ci.module, b, scope=ci.node)
